@@ -358,3 +358,30 @@ def _callable_true(c):
     c.param("x", ("drop",))
     c.returns(("const", True))
     c.modifies()
+
+
+# ---------------------------------------------------------------------------------------------------------------- C14 / C15: one file's content parser
+# FileAdapter._parse (the deferred parser Volume._realize_files runs per entry): whatever goes wrong while the content of ONE file is
+# parsed - a chain that leaves the table, a character outside the AKAI set, a read that fails because the image is cut off, a struct
+# unpacking error of a compiled parser - reaches the caller as ConstructError, which _realize_files takes as "leave this file out".
+# Any other exception class escaping here would abort the whole listing / export.
+@contract("construct:FileConstruct.parse_stream#may-fail", abstract=True, assumed=True,
+          note="the Switch over sample / program parsers: returns the parsed file (None for other file types) or fails with any of the exception classes "
+               "its parts can raise on damaged or cut-off content")
+def _fc_parse(c):
+    c.param("stream", ("drop",))
+    c.returns(("obj", "ParsedFileToken", {}))
+    for e in ("ConstructError", "RequestedInvalidSector", "InvalidCharacter", "SectorReadError", "error"):          # "error" = struct.error (imported as StructError)
+        c.raises(e, "True")
+    c.modifies()
+
+
+@contract("smpl_extract.akai.file:FileAdapter._parse", props=["C14", "C15"])
+def _fa_parse(c):
+    c.self_obj(("self", "smpl_extract.akai.file:FileAdapter", {"sat": ("drop",), "subcon": ("drop",)}))
+    c.param("stream", ("obj", "FileStreamToken", {}))
+    c.param("context", ("cdict", {}))
+    c.param("path", ("const", None))
+    c.abstract_calls = {"FileConstruct.parse_stream": "construct:FileConstruct.parse_stream#may-fail"}
+    c.raises("ConstructError")
+    c.modifies()
